@@ -339,14 +339,16 @@ def completeBlock (w : W) (b : Blk) : Except Err W :=
     | .ok w2 =>
       .ok (if hasFlag b.flags blkLastBlock then modInode w2 b.inode (fun i => { i with start := loc }) else w2)
 
-/-- `process_completed_block` -/
+/-- `process_completed_block`: the in-flight copy of a fragment block is dropped, the block is written and recorded,
+and — whatever the outcome — released -/
 def processCompletedBlock (s : Proc) (b : Blk) : Except Err Proc :=
-  let s1 : Proc :=
-    if hasFlag b.flags blkFragmentBlock then { s with fblkInFlight := s.fblkInFlight.eraseP (fun e => e.1 == b.index) }
-    else s
-  match completeBlock s1.w b with
+  match completeBlock s.w b with
   | .error e => .error e
-  | .ok w' => .ok (releaseOldBlock { s1 with w := w' })
+  | .ok w' =>
+    .ok (releaseOldBlock
+      { s with fblkInFlight := if hasFlag b.flags blkFragmentBlock then s.fblkInFlight.eraseP (fun e => e.1 == b.index)
+                               else s.fblkInFlight,
+               w := w' })
 
 /-- backend.c:151-176: the table lookup of `process_completed_fragment` (skipped under `DONT_DEDUPLICATE`) -/
 def lookupFrag (P : Params) (s : Proc) (frag : Blk) : Except Err (Option Chunk × Proc) :=
